@@ -103,6 +103,7 @@ Record entity := mkEntity {
   e_id : nat;                              (* identity, for data-backed parameters *)
   e_key : K;
   e_junk : bool;                           (* isinstance(e, parser.Junk) *)
+  e_raw : list N;                          (* raw_val text: data for an equals that reads it *)
   e_position : Z -> result pos;            (* e.position(offset) *)
   e_value_position : vpos -> result pos    (* e.value_position(pos) *)
 }.
@@ -160,7 +161,9 @@ Definition new_linter (current : list entity) (chk : option checker)
            (ref : option (list entity)) : linter :=
   mkLinter (counter current) chk ref.
 
-Variable equals : entity -> entity -> bool.   (* current_entity.equals(reference_entity) *)
+(* current_entity.equals(reference_entity); may raise (e.g. a value that cannot be
+   unescaped, FluentEntity.equals against Junk) *)
+Variable equals : entity -> entity -> result bool.
 
 Definition handle_junk (e : entity) : result (option finding) :=
   if e_junk e then
@@ -184,7 +187,8 @@ Definition lint_full_entity (li : linter) (e : entity) : result (list finding) :
   | Some ref =>
       if kt_contains keqb e_key (e_key e) ref then
         do r <- kt_getitem keqb e_key (e_key e) ref;
-        if equals e r then Ok dup
+        do same <- equals e r;
+        if (same : bool) then Ok dup
         else
           do p <- match d with Some p => Ok p | None => e_position e 0 end;
           Ok (dup ++ [mkf p LWarning (MChanged (e_key e))])
